@@ -100,6 +100,21 @@ def crystal_library():
         return _c(np.diag([1., 1., 1.6]), [pos], spins=[[np.dot(Rz(w * k), s0) for k in range(4)]])
     L['helix-spin-against'] = lambda: _helix(-1)
     L['helix-spin-with'] = lambda: _helix(1)
+    # length scales typical of real data (Angstrom): the Brillouin-zone construction must not depend on the unit of length
+    L['fcc-a4'] = lambda: crystal.Crystal.FCC(4.0)
+    L['hcp-a3'] = lambda: crystal.Crystal.HCP(3.0)
+    L['sc-a5'] = lambda: _c(5.0 * np.eye(3), [a([0., 0., 0.])])
+    L['tria-a4'] = lambda: _c(4.0 * a([[1., 0.5], [0., np.sqrt(0.75)]]), [a([0., 0.])])
+    L['bct-a10'] = lambda: _c(10. * a([[-0.5, 0.5, 0.5], [0.5, -0.5, 0.5], [0.8, 0.8, -0.8]]).T, [a([0., 0., 0.])])
+    # strongly sheared cell (entries in 1/8): folding a mesh point into the zone takes three sweeps over the zone vectors
+    L['sheared3'] = lambda: _c(a([[-0.75, 0.75, -0.375], [1., 1., 0.375], [0., 0., -1.5]]), [a([0., 0., 0.])])
+    # rhombohedral cell with alpha = 50 degrees: 6x6x6 mesh points lie on zone faces to roundoff
+    def _rh50():
+        al = np.deg2rad(50.)
+        c_ = np.cos(al)
+        y_ = (c_ - c_ * c_) / np.sin(al)
+        return _c(a([[1., 0., 0.], [c_, np.sin(al), 0.], [c_, y_, np.sqrt(1 - c_ * c_ - y_ * y_)]]).T, [a([0., 0., 0.])])
+    L['rhomb50'] = _rh50
     L['fcc-nosym'] = lambda: _c(0.5 * a([[0., 1., 1.], [1., 0., 1.], [1., 1., 0.]]), [a([0., 0., 0.])], NOSYM=True)
     L['hcp-nosym'] = lambda: _c(a([[0.5, 0.5, 0.], [-np.sqrt(0.75), np.sqrt(0.75), 0.], [0., 0., np.sqrt(8. / 3.)]]),
                                 [a([1. / 3, 2. / 3, 0.25]), a([2. / 3, 1. / 3, 0.75])], NOSYM=True)
